@@ -830,6 +830,16 @@ class RWLockFam(SyncFam):
 # =========================================================================
 
 class BarrierFam(Family):
+    """wait() in generated rounds, plus the maintenance methods reset()/abort() at generated instants (also while
+    parties wait), followed by continued use.
+
+    Model of what the docstrings promise, weaker reading where they are silent: a round forms from `parties`
+    consecutive wait() calls made while the barrier is not broken; reset()/abort() abandon the forming round: its
+    waiting parties come back within the instant (either by RuntimeError or by returning - both accepted), they do
+    not count for any later round; after abort() every wait() raises RuntimeError until reset(); reset() makes the
+    barrier usable again with an empty round.
+    """
+
     CLS = "Barrier"
 
     def build(self):
@@ -840,12 +850,21 @@ class BarrierFam(Family):
             raise InvalidScenario("parties")
         self.n = n
         self.b = Barrier("barrier", n)
-        self.arrivals = 0          # wait() calls so far
-        self.passed = 0            # wait() returns so far
+        self.passed = 0
         self.trips = 0
-        self.cur_gen: list[int] = []   # workers waiting in the forming generation
-        self.released = 0          # released by a trip, not yet resumed
+        self.bumps = 0             # generation increments expected (trips + resets)
+        self.cur_gen: list[dict] = []   # records of parties waiting in the forming round
+        self.released = 0          # released by a trip / reset / abort, not yet resumed
+        self.broken = False
         return [self.b]
+
+    def _abandon(self, how):
+        for rec in self.cur_gen:
+            rec["abandoned"] = how
+        if self.cur_gen:
+            self.probe(f"barrier_{how}_with_waiters")
+        self.released += len(self.cur_gen)
+        self.cur_gen = []
 
     def process(self, w):
         b = self.b
@@ -853,26 +872,50 @@ class BarrierFam(Family):
             k = op.get("op")
             if k == "hold":
                 yield from self.hold(w, op["ns"])
+            elif k == "reset":
+                w.cur = "reset"
+                self.counters["op.reset"] += 1
+                self._abandon("reset")
+                b.reset()
+                self.broken = False
+                self.bumps += 1
+                if b.waiting != 0 or b.broken:
+                    bad("maintenance", self.CLS, "reset-left-state", f"after reset(): waiting={b.waiting} broken={b.broken}")
+            elif k == "abort":
+                w.cur = "abort"
+                self.counters["op.abort"] += 1
+                self._abandon("abort")
+                b.abort()
+                self.broken = True
+                if b.waiting != 0 or not b.broken:
+                    bad("maintenance", self.CLS, "abort-left-state", f"after abort(): waiting={b.waiting} broken={b.broken}")
             elif k == "wait":
                 w.cur = "wait"
                 self.counters["op.wait"] += 1
-                st = {}
+                rec = {"w": w.idx, "tripped": False, "abandoned": None, "finished": None}
                 t0 = self.now_ns()
-                my_trip = self.trips  # number of trips before I arrived
+                was_broken = self.broken
 
-                def first(finished, st=st):
-                    st["finished"] = finished
-                    self.arrivals += 1
+                def first(finished, rec=rec):
+                    rec["finished"] = finished
                     self.note(w.idx, "arrive")
+                    if self.broken:
+                        bad("maintenance", self.CLS, "wait-on-aborted-barrier",
+                            "wait() on an aborted barrier did not raise" + (" and returned at once" if finished else " and queued the caller"))
                     if finished:
                         # last party: trips the barrier
                         if len(self.cur_gen) + 1 < self.n:
                             bad("over-admit", self.CLS, "passed-before-all-arrived",
-                                f"wait() returned at once with only {len(self.cur_gen) + 1} of {self.n} parties")
+                                f"wait() returned at once with only {len(self.cur_gen) + 1} of {self.n} parties in this round")
                         self.trips += 1
+                        self.bumps += 1
+                        for r2 in self.cur_gen:
+                            r2["tripped"] = True
                         self.released += len(self.cur_gen)
                         self.cur_gen = []
                         self.probe("tripped")
+                        if self.bumps > self.trips:
+                            self.probe("barrier_tripped_after_reset")
                         if self.trips >= 3:
                             self.probe("barrier_generations_ge_3")
                         if len(self.workers) > self.n > 1:
@@ -881,36 +924,52 @@ class BarrierFam(Family):
                         if len(self.cur_gen) + 1 >= self.n:
                             bad("head-waiter-served", self.CLS, "last-party-blocked",
                                 f"party {len(self.cur_gen) + 1} of {self.n} arrived but was made to wait")
-                        self.cur_gen.append(w.idx)
+                        self.cur_gen.append(rec)
                         self.max_blocked = max(self.max_blocked, len(self.cur_gen))
 
-                yield from drive(b.wait(), first)
+                try:
+                    yield from drive(b.wait(), first)
+                except RuntimeError:
+                    if rec["finished"] is None:
+                        # raised at the call
+                        if not was_broken:
+                            bad("maintenance", self.CLS, "wait-raised-on-healthy-barrier", "wait() raised RuntimeError although the barrier is not broken")
+                        self.probe("wait_on_aborted_raised")
+                        continue
+                    if not rec["abandoned"]:
+                        bad("maintenance", self.CLS, "waiter-raised-without-reset", "a waiting party got RuntimeError without reset()/abort()")
+                    self.released -= 1
+                    self.probe("abandoned_party_raised")
+                    continue
                 self.passed += 1
                 self.note(w.idx, "pass")
-                if not st["finished"]:
-                    if self.trips <= my_trip:
+                if not rec["finished"]:
+                    if not rec["tripped"] and not rec["abandoned"]:
                         bad("over-admit", self.CLS, "released-before-trip",
-                            f"worker {w.idx} passed the barrier although its generation has only {len(self.cur_gen)} of {self.n} parties")
+                            f"worker {w.idx} passed the barrier although its round has only {len(self.cur_gen)} of {self.n} parties")
                     self.released -= 1
                     if self.released < 0:
-                        bad("granted-once", self.CLS, "released-more-than-waiting", "more parties passed than were released")
-                    if self.now_ns() > t0:
-                        self.probe("waited_across_time")
-                    self.probe("blocked_then_granted")
+                        bad("granted-once", self.CLS, "released-more-than-waiting", "more parties came back than were released")
+                    if rec["abandoned"]:
+                        self.probe("abandoned_party_returned_normally")
+                    else:
+                        if self.now_ns() > t0:
+                            self.probe("waited_across_time")
+                        self.probe("blocked_then_granted")
 
     def after(self, ev, mon):
         b = self.b
         if b.waiting != len(self.cur_gen):
-            bad("conservation", self.CLS, "waiting-count", f"waiting={b.waiting} but {len(self.cur_gen)} parties wait in the forming generation")
-        if b.generation != self.trips:
-            bad("conservation", self.CLS, "generation", f"generation={b.generation} after {self.trips} trips")
-        if self.passed > self.trips * self.n:
-            bad("over-admit", self.CLS, "passed-exceeds-trips", f"{self.passed} passes after {self.trips} trips of {self.n}")
-        self.states.add(f"bar:{min(len(self.cur_gen), 4)}:{min(self.released, 3)}:{min(self.trips, 3)}")
+            bad("conservation", self.CLS, "waiting-count", f"waiting={b.waiting} but {len(self.cur_gen)} parties wait in the forming round")
+        if b.generation != self.bumps:
+            bad("conservation", self.CLS, "generation", f"generation={b.generation} after {self.trips} trips and {self.bumps - self.trips} resets")
+        if b.broken != self.broken:
+            bad("conservation", self.CLS, "broken-flag", f"broken={b.broken}, expected {self.broken}")
+        self.states.add(f"bar:{min(len(self.cur_gen), 4)}:{min(self.released, 3)}:{min(self.trips, 3)}:{int(self.broken)}:{min(self.bumps - self.trips, 2)}")
 
     def eoi(self):
         if self.released > 0:
-            bad("served-eventually", self.CLS, "released-not-resumed", f"{self.released} released parties did not pass within the trip instant")
+            bad("served-eventually", self.CLS, "released-not-resumed", f"{self.released} released parties did not come back within the instant")
 
     def final(self):
         self.eoi()
@@ -1093,6 +1152,8 @@ class PoolFam(SyncFam):
         self.setup_overlap = False          # a connection set-up began while another one was in flight
         self.prev_pending = 0
         self.worker_touched_queue = False   # a worker released or timed out during the current delivery
+        self.stale_ids: set[int] = set()    # connections closed by close_all() while somebody still had them
+        self.closed_all_now = False
         self._init_sync()
         return [self.p, self.sink]
 
@@ -1144,6 +1205,12 @@ class PoolFam(SyncFam):
                 try:
                     conn = yield from drive(p.acquire(), first)
                 except TimeoutError:
+                    if r.extra == "closed":
+                        # close_all() told this waiter that no connection will come
+                        self.probe("waiter_released_by_close_all")
+                        self.worker_touched_queue = True
+                        conn = None
+                        continue
                     if not r.blocked:
                         bad("served-eventually", self.CLS, "timeout-without-waiting", "TimeoutError for a request that never queued")
                     waited = self.now_ns() - t0
@@ -1159,6 +1226,15 @@ class PoolFam(SyncFam):
                 if st.get("creating"):
                     self.creating -= 1
                     self.probe("created")
+                if r.extra == "closed":
+                    # handed a connection before close_all(), which then closed it: the holder has a dead handle
+                    if conn is not None:
+                        self.stale_ids.add(conn.id)
+                    continue_stale = True
+                else:
+                    continue_stale = False
+                if continue_stale:
+                    continue
                 if r.blocked:
                     self.on_resume_blocked(r)
                     self.probe("handoff")
@@ -1173,6 +1249,25 @@ class PoolFam(SyncFam):
                 conn = None
                 if evs:
                     yield 0.0, evs
+            elif k == "close_all":
+                w.cur = "close_all"
+                self.counters["op.close_all"] += 1
+                self.probe("close_all")
+                if self.held:
+                    self.probe("close_all_with_active_connections")
+                if self.blockedq:
+                    self.probe("close_all_with_waiters")
+                self.stale_ids |= set(self.held)
+                self.held = {}
+                for r_ in self.blockedq:
+                    r_.extra = "closed"
+                self.blockedq = []
+                p.close_all()
+                self.closed_all_now = True
+                self.worker_touched_queue = True
+                if p.active_connections or p.idle_connections or p.pending_requests:
+                    bad("maintenance", self.CLS, "close-all-left-state",
+                        f"after close_all(): active={p.active_connections} idle={p.idle_connections} pending={p.pending_requests}")
         if conn is not None:
             w.cur = "release"
             evs = self._release(w, conn)
@@ -1180,6 +1275,16 @@ class PoolFam(SyncFam):
                 yield 0.0, evs
 
     def _release(self, w, conn):
+        if conn.id not in self.held:
+            # the connection was closed by close_all() under its holder: releasing it must change nothing
+            p = self.p
+            before = (p.total_connections, p.active_connections, p.idle_connections, p.pending_requests)
+            evs = p.release(conn)
+            self.probe("release_of_closed_connection")
+            now = (p.total_connections, p.active_connections, p.idle_connections, p.pending_requests)
+            if now != before or evs:
+                bad("maintenance", self.CLS, "release-of-closed-connection", f"release() of a connection closed by close_all() changed the pool {before} -> {now}")
+            return []
         del self.held[conn.id]
         self.note(w.idx, "release", conn.id)
         q0 = self.p.pending_requests
@@ -1215,7 +1320,9 @@ class PoolFam(SyncFam):
         if p.pending_requests > 0 and idle > 0:
             bad("head-waiter-served", self.CLS, "waiting-with-idle-connection", f"{p.pending_requests} waiters, {idle} idle connections")
         closed = p.stats.connections_closed
-        if closed > self.prev_closed:
+        if closed > self.prev_closed and self.closed_all_now:
+            pass
+        elif closed > self.prev_closed:
             self.probe("idle_expired")
             if self.prev_total - (closed - self.prev_closed) < self.minc:
                 bad("conservation", self.CLS, "closed-below-min", f"closed a connection with total={self.prev_total}, min={self.minc}")
@@ -1224,6 +1331,7 @@ class PoolFam(SyncFam):
             self.probe("warmup_handed_connection_to_waiter")
         self.prev_pending = p.pending_requests
         self.worker_touched_queue = False
+        self.closed_all_now = False
         self.states.add(f"pool:{min(act, 3)}:{min(idle, 3)}:{min(p.pending_requests, 3)}:{min(self.creating, 3)}:{min(g, 2)}")
 
     def final(self):
@@ -1814,3 +1922,183 @@ FAMILIES = {
     "concurrency": ConcurrencyFam,
     "preemptible": PreemptFam,
 }
+
+
+# =========================================================================
+# Server with a concurrency model (limit raised / lowered mid-run under backlog)
+# =========================================================================
+
+def _seq_latency(values_ns, on_sample):
+    from happysimulator.core.temporal import Duration
+    from happysimulator.distributions.latency_distribution import LatencyDistribution
+
+    class SeqLatency(LatencyDistribution):
+        """Harness stub: service times from a generated list (cycled); tells the model that a request started."""
+
+        def __init__(self):
+            super().__init__(secs(values_ns[0]))
+            self.k = 0
+
+        def get_latency(self, current_time):
+            v = values_ns[self.k % len(values_ns)]
+            self.k += 1
+            on_sample()
+            return Duration(int(v))
+
+    return SeqLatency()
+
+
+class _Done(Entity):
+    def __init__(self, name, fam):
+        super().__init__(name)
+        self.fam = fam
+
+    def handle_event(self, event):
+        self.fam.completed(event)
+        return None
+
+
+class ServerFam(Family):
+    CLS = "Server"
+
+    def build(self):
+        from happysimulator.components.server.concurrency import DynamicConcurrency, FixedConcurrency
+        from happysimulator.components.server.server import Server
+
+        c = self.cfg
+        self.kind = c["kind"]
+        lim = int(c["limit"])
+        svc = [int(x) for x in c["service_ns"]]
+        if lim < 1 or not svc or min(svc) < 0:
+            raise InvalidScenario("server cfg")
+        if self.kind == "dynamic":
+            self.lo, self.hi = int(c.get("lo", 1)), c.get("hi")
+            if self.lo < 1 or lim < self.lo or (self.hi is not None and (self.hi < self.lo or lim > self.hi)):
+                raise InvalidScenario("dynamic bounds")
+            self.cm = DynamicConcurrency(lim, min_limit=self.lo, max_limit=self.hi)
+        elif self.kind == "fixed":
+            self.cm = FixedConcurrency(lim)
+        else:
+            raise InvalidScenario("kind")
+        self.CLS = type(self.cm).__name__
+        self.limit = lim
+        self.qcap = c.get("queue")
+        if self.qcap is not None and self.qcap < 1:
+            raise InvalidScenario("queue")
+        self.started = 0
+        self.done_ids: list[int] = []
+        self.raised_at = -1        # instant of the last limit raise
+        self._inst = -1            # instant of the last delivery
+        self.sink = _Done("done", self)
+        self.srv = Server("srv", concurrency=self.cm, service_time=_seq_latency(svc, self._on_start),
+                          queue_capacity=self.qcap, downstream=self.sink)
+        return [self.srv, self.sink]
+
+    def _on_start(self):
+        self.started += 1
+        self.note(self.started, "grant")
+        cm = self.cm
+        if cm.active > cm.limit:
+            bad("over-admit", self.CLS, "started-above-limit", f"a request started with active={cm.active} > limit={cm.limit}")
+
+    def completed(self, event):
+        rid = event.context.get("metadata", {}).get("rid")
+        if rid in self.done_ids:
+            bad("granted-once", self.CLS, "request-completed-twice", f"request {rid} completed twice")
+        self.done_ids.append(rid)
+        self.note(rid, "release")
+
+    def extra_events(self):
+        evs = []
+        for i, rq in enumerate(self.sc["requests"]):
+            if rq["t"] < 0:
+                raise InvalidScenario("request")
+            evs.append(Event(time=Instant(int(rq["t"])), event_type="req", target=self.srv,
+                             context={"metadata": {"rid": i}}))
+        self.n_req = len(evs)
+        return evs
+
+    def process(self, w):
+        cm = self.cm
+        for op in w.ops:
+            k = op.get("op")
+            if k == "hold":
+                yield from self.hold(w, op["ns"])
+            elif k == "limit" and self.kind == "dynamic":
+                w.cur = "set_limit"
+                new = int(op["to"])
+                how = op.get("how", "set")
+                old = self.limit
+                if how == "set":
+                    cm.set_limit(new)
+                    tgt = new
+                elif how == "up":
+                    cm.scale_up(new)
+                    tgt = old + new
+                else:
+                    cm.scale_down(new)
+                    tgt = old - new
+                tgt = max(self.lo, tgt)
+                if self.hi is not None:
+                    tgt = min(self.hi, tgt)
+                self.limit = tgt
+                self.counters["op.limit"] += 1
+                if tgt > old:
+                    self.raised_at = self.now_ns()
+                    self.probe("limit_raised")
+                    if self.srv.depth > 0:
+                        self.probe("limit_raised_under_backlog")
+                elif tgt < old:
+                    self.probe("limit_lowered")
+                    if cm.active > tgt:
+                        self.probe("limit_below_active")
+
+    def after(self, ev, mon):
+        cm, srv = self.cm, self.srv
+        self._inst = ev.time.nanoseconds
+        if cm.limit != self.limit:
+            bad("conservation", self.CLS, "limit", f"limit={cm.limit}, expected {self.limit}")
+        running = self.started - srv.stats.requests_completed
+        if cm.active != running:
+            bad("conservation", self.CLS, "active" + ("-high" if cm.active > running else "-low"),
+                f"active={cm.active} but {running} requests are in service")
+        if running <= self.limit:
+            if cm.active + cm.available != cm.limit:
+                bad("conservation", self.CLS, "held-plus-available", f"active={cm.active} available={cm.available} limit={cm.limit}")
+        elif cm.available != 0:
+            bad("over-admit", self.CLS, "available-while-over-limit", f"available={cm.available} with active={cm.active} > limit={cm.limit}")
+        if self.qcap is not None and srv.depth > self.qcap:
+            bad("over-admit", self.CLS, "queue-exceeds-capacity", f"depth={srv.depth} > {self.qcap}")
+        if srv.depth:
+            self.max_blocked = max(self.max_blocked, srv.depth)
+            self.counters["blocked"] = 1
+        self.states.add(f"srv:{self.kind}:{min(cm.active, 3)}:{min(srv.depth, 3)}:{'over' if running > self.limit else 'full' if running == self.limit else 'room'}")
+
+    def eoi(self):
+        srv, cm = self.srv, self.cm
+        if srv.depth > 0:
+            self.probe("waited_across_time")
+            if cm.has_capacity():
+                detail = "queued-while-slot-free"
+                if self.raised_at >= 0 and self.raised_at == self._inst:
+                    detail = "queued-after-limit-raised"
+                bad("head-waiter-served", self.CLS, detail,
+                    f"end of instant: {srv.depth} requests queued while active={cm.active} < limit={cm.limit}")
+
+    def final(self):
+        srv, cm = self.srv, self.cm
+        self.eoi()
+        if srv.depth or cm.active:
+            bad("served-eventually", self.CLS, "left-at-quiescence", f"queued={srv.depth} active={cm.active} limit={cm.limit}")
+        st = srv.stats
+        dropped = srv.stats_dropped
+        if dropped:
+            self.probe("rejected")
+        if st.requests_completed + st.requests_rejected + dropped != self.n_req:
+            bad("conservation", self.CLS, "request-accounting",
+                f"sent={self.n_req} completed={st.requests_completed} rejected={st.requests_rejected} dropped={dropped}")
+        if len(self.done_ids) != st.requests_completed or self.started != st.requests_completed + st.requests_rejected * 0:
+            bad("conservation", self.CLS, "started-vs-completed", f"started={self.started} completed={st.requests_completed} delivered={len(self.done_ids)}")
+
+
+FAMILIES["server"] = ServerFam
